@@ -37,6 +37,7 @@ type deferRec struct {
 type retRec struct {
 	st   *State
 	vals []Val
+	pos  string
 }
 
 type loopInfo struct {
@@ -68,6 +69,7 @@ type Frame struct {
 	loops    map[*ssa.BasicBlock]*loopInfo
 	nopanic  bool
 	unsupp   []string
+	inFrom   map[*State]*ssa.BasicBlock
 }
 
 type engineError struct{ msg string }
@@ -297,12 +299,41 @@ func (fr *Frame) run(st0 *State) {
 	fr.findLoops()
 	order := rpo(fn)
 	in := map[*ssa.BasicBlock][]*State{}
+	fr.inFrom = map[*State]*ssa.BasicBlock{}
 	in[fn.Blocks[0]] = []*State{st0}
 	for _, b := range order {
 		ins := in[b]
 		delete(in, b)
 		if len(ins) == 0 {
 			continue
+		}
+		// phi nodes (short-circuit boolean expressions): select by incoming edge
+		for _, instr := range b.Instrs {
+			phi, ok := instr.(*ssa.Phi)
+			if !ok {
+				break
+			}
+			expr := ""
+			var pt types.Type = phi.Type()
+			for k := len(ins) - 1; k >= 0; k-- {
+				from := fr.inFrom[ins[k]]
+				idx := -1
+				for pi, p := range b.Preds {
+					if p == from {
+						idx = pi
+					}
+				}
+				if idx < 0 {
+					fail("phi: unknown predecessor in %s", fr.fn)
+				}
+				v := fr.val(phi.Edges[idx])
+				if expr == "" {
+					expr = v.S
+				} else {
+					expr = ite(ins[k].path, v.S, expr)
+				}
+			}
+			fr.set(phi, Val{T: pt, S: g.define("phi", g.S.sortOf(pt), expr)})
 		}
 		st := fr.mergeStates(ins)
 		if st.path == "false" {
@@ -340,7 +371,7 @@ func (fr *Frame) run(st0 *State) {
 			for _, r := range t.Results {
 				vals = append(vals, fr.val(r))
 			}
-			fr.rets = append(fr.rets, retRec{st: st, vals: vals})
+			fr.rets = append(fr.rets, retRec{st: st, vals: vals, pos: fr.g.posOf(t)})
 		case *ssa.Panic:
 			fr.safety(st, "panic", "false", "explicit panic")
 		case nil:
@@ -361,6 +392,7 @@ func (fr *Frame) flow(from, to *ssa.BasicBlock, st *State, cond string, in map[*
 		fr.closeLoop(li, st)
 		return
 	}
+	fr.inFrom[st] = from
 	in[to] = append(in[to], st)
 }
 
@@ -609,6 +641,10 @@ func (g *Gen) allocRef(st *State) string {
 	old := st.heap.get(g, k)
 	r := g.define("ref", "Int", "(+ "+old+" 1)")
 	st.heap.set(k, r)
+	if g.freshRefs == nil {
+		g.freshRefs = map[string]bool{}
+	}
+	g.freshRefs[r] = true
 	return r
 }
 
@@ -705,7 +741,7 @@ func (fr *Frame) exec(st *State, instr ssa.Instruction) bool {
 		}
 		fr.set(x, Val{T: x.Type(), Fn: x.Fn.(*ssa.Function), Bind: binds, S: "1"})
 	case *ssa.Phi:
-		fail("phi in naive form: %s", fr.fn)
+		// evaluated at block entry
 	case *ssa.Call:
 		res := fr.execCall(st, x.Common(), x)
 		if st.path == "false" {
@@ -854,6 +890,14 @@ func (fr *Frame) execUnOp(st *State, x *ssa.UnOp) {
 		if a.cell == nil {
 			g.assumeUnder(st.path, g.typeRange(s, x.Type()))
 			g.knownRef(st, s, x.Type())
+		}
+		if gl, ok := x.X.(*ssa.Global); ok && g.P.globalNonNil(gl) {
+			if isIface(x.Type()) {
+				g.assume("(not ((_ is iface_nil) " + s + "))")
+			} else if isPtr(x.Type()) {
+				g.assume("(not (= " + s + " 0))")
+			}
+			g.note("package variable " + gl.Pkg.Pkg.Name() + "." + gl.Name() + " is initialised once with a non-nil value (checked syntactically)")
 		}
 		fr.set(x, Val{T: x.Type(), S: s})
 	case token.NOT:
@@ -1203,7 +1247,9 @@ func (fr *Frame) execConvert(st *State, x *ssa.Convert) {
 			es, sb = 8, 24
 		}
 		if g.mode == ModeInt {
-			s = fmt.Sprintf("((_ to_fp %d %d) RNE (to_real %s))", es, sb, v.S)
+			// abstraction: an uninterpreted (but functional) conversion; exact semantics only in mode bv
+			g.needI2F = true
+			s = fmt.Sprintf("(i2f%d %s)", tfb, v.S)
 		} else if fsigned {
 			s = fmt.Sprintf("((_ to_fp %d %d) RNE %s)", es, sb, v.S)
 		} else {
@@ -1294,11 +1340,18 @@ func (fr *Frame) execTypeAssert(st *State, x *ssa.TypeAssert) {
 			rv = ite(ok, res, g.S.zero(x.AssertedType))
 		}
 		rv = g.define("tav", g.S.sortOf(x.AssertedType), rv)
+		if !isIface(x.AssertedType) {
+			g.assumeUnder(and(st.path, ok), g.typeRange(rv, x.AssertedType))
+		}
 		fr.set(x, Val{T: x.Type(), Tup: []Val{{T: x.AssertedType, S: rv}, {T: types.Typ[types.Bool], S: ok}}})
 		return
 	}
 	fr.safety(st, "typeassert", ok, "interface conversion: "+x.X.Type().String()+" is not "+x.AssertedType.String())
-	fr.set(x, Val{T: x.AssertedType, S: g.define("tav", g.S.sortOf(x.AssertedType), res)})
+	rv := g.define("tav", g.S.sortOf(x.AssertedType), res)
+	if !isIface(x.AssertedType) {
+		g.assumeUnder(st.path, g.typeRange(rv, x.AssertedType))
+	}
+	fr.set(x, Val{T: x.AssertedType, S: rv})
 }
 
 func (fr *Frame) execIndexAddr(st *State, x *ssa.IndexAddr) {
@@ -1396,7 +1449,7 @@ func (fr *Frame) execSlice(st *State, x *ssa.Slice) {
 			g.assume("(= (sl_ref " + r + ") " + ref + ")")
 			g.assume("(= (sl_off " + r + ") " + lo + ")")
 			h := st.heap.get(g, key)
-			st.heap.set(key, g.define("he", srt, "(store "+h+" "+ref+" "+cur+")"))
+			st.heap.setFresh(key, g.define("he", srt, "(store "+h+" "+ref+" "+cur+")"))
 		}
 		fr.set(x, Val{T: x.Type(), S: r})
 	default:
@@ -1415,7 +1468,7 @@ func (fr *Frame) execMakeSlice(st *State, x *ssa.MakeSlice) {
 	key, srt := g.elemKey(el)
 	h := st.heap.get(g, key)
 	zeroArr := "((as const (Array " + g.idxSort() + " " + g.S.sortOf(el) + ")) " + g.S.zero(el) + ")"
-	st.heap.set(key, g.define("he", srt, "(store "+h+" "+ref+" "+zeroArr+")"))
+	st.heap.setFresh(key, g.define("he", srt, "(store "+h+" "+ref+" "+zeroArr+")"))
 	fr.set(x, Val{T: x.Type(), S: g.define("mk", "Slice", "(mk_slice "+ref+" "+z+" "+ln+" "+cp+")")})
 }
 
